@@ -466,7 +466,7 @@ func genScenario(t *rapid.T) *scenario {
 // handshake and the play phase, with generated credentials, routes and
 // programmes, through all request modes.
 func TestMultiFault(t *testing.T) {
-	evid.Checks(110, 1500)
+	evid.Checks(110, 1200)
 	rapid.Check(t, func(t *rapid.T) {
 		sc := genScenario(t)
 		serial.Lock()
